@@ -12,35 +12,33 @@ structure RevokeReq where
   hint : Hint := .none
   deriving Repr, Inhabited
 
-/-- `storeErrorsToRevocationError` -/
-def revocationError (e1 e2 : Option Err) : Out :=
-  let benign : Option Err → Bool
-    | none => true | some .not_found => true | some .token_inactive => true | _ => false
-  if benign e1 && benign e2 then .ok else .err .temporarily_unavailable
+def benignRevocationErr : Option Err → Bool
+  | none => true | some .not_found => true | some .token_inactive => true | _ => false
 
-def revokeProg (q : RevokeReq) : Prog Out := do
-  match ← authenticate q.clientId q.credOk with
-  | .error e => return .err e
-  | .ok client =>
-  let lookRefresh : Prog Res := call (.getRefresh q.token.sig)
-  let lookAccess : Prog Res := call (.getAccess q.token.sig)
-  let first := if q.hint == .access then lookAccess else lookRefresh
-  let second := if q.hint == .access then lookRefresh else lookAccess
-  let r1 ← first
-  let found : Prog (Except (Option Err × Option Err) Req) :=
-    match r1 with
-    | .req r => return .ok r
-    | _ => do
-      let r2 ← second
-      match r2 with
-      | .req r => return .ok r
-      | _ => return .error (r1.errKind, r2.errKind)
-  match ← found with
-  | .error (e1, e2) => return revocationError e1 e2
-  | .ok ar =>
-    if ar.client.id != client.id then return .err .unauthorized_client
-    let e1 := (← call (.revokeRefresh ar.id)).errKind
-    let e2 := (← call (.revokeAccess ar.id)).errKind
-    return revocationError e1 e2
+/-- `storeErrorsToRevocationError` -/
+def revocationError (e1 e2 : Option Err) : HP Out :=
+  if benignRevocationErr e1 && benignRevocationErr e2 then HP.ok .ok else HP.fail .temporarily_unavailable
+
+def revokeFirst (q : RevokeReq) : Call := if q.hint == .access then .getAccess q.token.sig else .getRefresh q.token.sig
+def revokeSecond (q : RevokeReq) : Call := if q.hint == .access then .getRefresh q.token.sig else .getAccess q.token.sig
+
+def revokeH (q : RevokeReq) : HP Out := do
+  let client ← authenticate q.clientId q.credOk
+  let r1 ← callH (revokeFirst q)
+  match r1 with
+  | .req ar => revokeFound client ar
+  | _ =>
+    let r2 ← callH (revokeSecond q)
+    match r2 with
+    | .req ar => revokeFound client ar
+    | _ => revocationError r1.errKind r2.errKind
+where
+  revokeFound (client : Client) (ar : Req) : HP Out := do
+    HP.guard (ar.client.id == client.id) .unauthorized_client
+    let e1 := (← callH (.revokeRefresh ar.id)).errKind
+    let e2 := (← callH (.revokeAccess ar.id)).errKind
+    revocationError e1 e2
+
+def revokeProg (q : RevokeReq) : Prog Out := (revokeH q).run
 
 end Fosite.Model
